@@ -219,7 +219,8 @@ def run(script, ctx):
             model = R.Spline(spec["degrees"], spec["knots"], sizes, P, False, float)
             for prm in ([0.0] * nd, [1.0] * nd, [0.3125, 0.6875, 0.4375][:nd]):
                 e = model.eval(prm)
-                for nm, o in (("bspline_to_nurbs", nb), ("nurbs_to_bspline", back)):
+                # the sources of both conversions are evaluated too, AFTER the conversions: converting must not disturb its input
+                for nm, o in (("bspline_to_nurbs", nb), ("nurbs_to_bspline", back), ("bspline_to_nurbs (its input afterwards)", bs)):
                     got = list(o.evaluate_single(prm[0] if nd == 1 else prm))
                     ok, why = close(got, e, 1e-9)
                     if not ok:
@@ -235,11 +236,12 @@ def run(script, ctx):
             res = g.convert.nurbs_to_bspline(obj)
             for prm in ([0.0] * nd, [1.0] * nd, [0.3125, 0.6875, 0.4375][:nd], [0.5625, 0.1875, 0.8125][:nd]):
                 e = model.eval(prm)
-                got = list(res.evaluate_single(prm[0] if nd == 1 else prm))
-                ok, why = close(got, e, 1e-9)
-                if not ok:
-                    ctx.fail("conversion_changed_shape", "nurbs_to_bspline of a rational %s with weights in [%r, %r] evaluates to %r at %r, the input to %r" % (
-                        kind, min(W), max(W), got, prm, e), op="nurbs_to_bspline", **sig)
+                for nm, o in (("result", res), ("input afterwards", obj)):
+                    got = list(o.evaluate_single(prm[0] if nd == 1 else prm))
+                    ok, why = close(got, e, 1e-9)
+                    if not ok:
+                        ctx.fail("conversion_changed_shape", "nurbs_to_bspline of a rational %s with weights in [%r, %r]: the %s evaluates to %r at %r, the input evaluated to %r" % (
+                            kind, min(W), max(W), nm, got, prm, e), op="nurbs_to_bspline", **sig)
             if all(w <= 1.0 for w in W) and any(w < 1.0 for w in W):
                 ctx.probe("nurbs_to_bspline_on_weights_le_1")
             ctx.ops_executed += 1
